@@ -8,7 +8,7 @@ namespace AnyioModel.Kernel
 
 variable {K : Nat → Prop}
 
-theorem not_isHandleScope {st : State} {s t : Nat} (h : ¬ isHandleScope st s = true)
+theorem hi5_not_isHandleScope {st : State} {s t : Nat} (h : ¬ isHandleScope st s = true)
     (ht : t < st.nTasks) : (st.tasks t).hscope ≠ some s := by
   intro hh
   apply h
@@ -263,7 +263,7 @@ theorem hinv_step {st st' : State} {e : Ev} {o : Out} (h : HInv K none none st) 
           obtain ⟨rfl, _⟩ := hs
           have h0 : HW K none none st t := ⟨h, w, hr⟩
           refine (h0.exitScope (ext' := none) hex (fun u _ hu => hu) (.inr ?_)).h
-          exact not_isHandleScope (fun hc => hg (.inr (.inr hc))) (w.running_lt hr)
+          exact hi5_not_isHandleScope (fun hc => hg (.inr (.inr hc))) (w.running_lt hr)
   | cancel s =>
     simp only [step] at hs
     split at hs
